@@ -63,6 +63,13 @@ pub struct Finish {
     pub check_integrity: bool,
 }
 
+#[derive(Clone, Copy, Debug, Default)]
+pub struct Flags {
+    pub auto_rcheck: bool,
+    pub abort_set_equality: bool,
+    pub decode_every_commit: bool,
+}
+
 pub type Alphabet = dyn Fn(&Interp, usize, &Built) -> Vec<Op> + Sync + Send;
 
 pub struct Profile {
@@ -72,6 +79,7 @@ pub struct Profile {
     pub alphabet: Box<Alphabet>,
     pub finish: Finish,
     pub accounting: bool,
+    pub flags: Flags,
     /// extra per-execution oracle run at the end (after `finish`)
     pub extra: Option<Box<dyn Fn(&mut Interp, &Built) -> Result<(), String> + Sync + Send>>,
 }
@@ -85,6 +93,8 @@ pub struct Stats {
     pub shapes: BTreeSet<(u32, u64, u64)>,
     pub expected_errors: u64,
     pub reuse_under_reader: u64,
+    pub aborts_checked: u64,
+    pub decoded_images: u64,
     pub max_depth: usize,
     pub failures: Vec<Failure>,
     pub samples: Vec<String>,
@@ -109,6 +119,8 @@ impl Stats {
         self.shapes.extend(o.shapes);
         self.expected_errors += o.expected_errors;
         self.reuse_under_reader += o.reuse_under_reader;
+        self.aborts_checked += o.aborts_checked;
+        self.decoded_images += o.decoded_images;
         self.max_depth = self.max_depth.max(o.max_depth);
         for f in o.failures {
             if self.failures.len() < 200 {
@@ -134,6 +146,8 @@ struct RunOut {
     shapes: BTreeSet<(u32, u64, u64)>,
     expected_errors: u64,
     reuse: u64,
+    aborts_checked: u64,
+    decoded: u64,
 }
 
 fn finish_run(it: &mut Interp, profile: &Profile, built: &Built) -> Result<(), String> {
@@ -141,7 +155,7 @@ fn finish_run(it: &mut Interp, profile: &Profile, built: &Built) -> Result<(), S
     if it.has_cursor() {
         it.step(&Op::CurClose)?;
     }
-    if f.verify_slots && it.in_txn() {
+    if f.verify_slots && it.in_txn() && !it.poisoned() {
         for s in 0..2u8 {
             if it.slot_open(s) {
                 it.verify_slot(s).map_err(|e| format!("final scan of slot {s}: {e}"))?;
@@ -194,6 +208,8 @@ fn run_one(profile: &Profile, built: &Built, choices: &[usize]) -> RunOut {
         shapes: BTreeSet::new(),
         expected_errors: 0,
         reuse: 0,
+        aborts_checked: 0,
+        decoded: 0,
     };
     let backend = MemBackend::from_image(built.image.clone());
     let mut it = match Interp::attach(built.seed.cfg, backend, built.model.clone()) {
@@ -204,6 +220,9 @@ fn run_one(profile: &Profile, built: &Built, choices: &[usize]) -> RunOut {
         }
     };
     it.accounting = profile.accounting;
+    it.auto_rcheck = profile.flags.auto_rcheck;
+    it.abort_set_equality = profile.flags.abort_set_equality;
+    it.decode_every_commit = profile.flags.decode_every_commit;
     for op in &built.seed.pre {
         if let Err(e) = it.step(op) {
             out.result = Err(format!("pre-op {}: {e}", op.short()));
@@ -243,6 +262,8 @@ fn run_one(profile: &Profile, built: &Built, choices: &[usize]) -> RunOut {
     out.shapes = std::mem::take(&mut it.shape_sigs);
     out.expected_errors = it.expected_errors;
     out.reuse = it.reuse_under_reader;
+    out.aborts_checked = it.aborts_checked;
+    out.decoded = it.decoded_images;
     out
 }
 
@@ -285,6 +306,8 @@ fn explore_shard(profile: &Profile, built: &Built, c0: usize, cap_execs: u64) ->
                 st.shapes.extend(out.shapes.iter().copied());
                 st.expected_errors += out.expected_errors;
                 st.reuse_under_reader += out.reuse;
+                st.aborts_checked += out.aborts_checked;
+                st.decoded_images += out.decoded;
                 if st.samples.len() < 2 && executed == profile.depth {
                     st.samples.push(format!("[{}] {} => {}", built.seed.name, seq_short(&out.ops), out.obs.join(",")));
                 }
@@ -419,6 +442,9 @@ pub fn report_stats(rep: &mut Report, pname: &str, st: &Stats, depth: usize) {
     rep.add_count("traces_validated_against_impl", st.executions);
     rep.add_count("evaluations", st.executions);
     rep.add_count("expected_error_outcomes", st.expected_errors);
+    rep.add_count("executions_with_page_reuse_under_a_live_reader", st.reuse_under_reader);
+    rep.add_count("aborted_transactions_checked_for_allocated_set_equality", st.aborts_checked);
+    rep.add_count("images_decoded_independently_after_durable_commits", st.decoded_images);
     let mut profs = rep.coverage.get("profiles").cloned().unwrap_or(json!([]));
     profs.as_array_mut().unwrap().push(json!({
         "profile": pname,
